@@ -88,6 +88,17 @@ class Rig(TreeRig):
             pc = self.kids[ev[1]].connect_init(60000, 'D')
             self.kid_conns[ev[1]] = pc
             self.world.run_default_until_idle()
+        elif kind == 'child-join2':
+            # a second connection of the same user (e.g. it reconnected before the first one was torn down)
+            pc = self.kids[ev[1]].connect_init(60000, 'D')
+            self.kid_conns[ev[1] + '#2'] = pc
+            self.world.run_default_until_idle()
+        elif kind == 'child-writefail':
+            # the next write to this child fails on the socket (connection reset under us)
+            pc = self.kid_conns.get(ev[1])
+            if pc is not None:
+                lib = pc.end.conn.ends[1]
+                lib.fail_writes = ConnectionResetError(104, 'reset')
         elif kind == 'child-leave':
             pc = self.kid_conns.pop(ev[1], None)
             if pc is not None:
@@ -106,7 +117,11 @@ class Rig(TreeRig):
             username = ME if user == 'self' else ASKER[0]
             req = {'carrier': carrier, 'user': username, 'ticket': ticket, 'query': query,
                    'server_mark': len(self.server.received),
-                   'children': [n for n, pc in self.kid_conns.items() if self._is_child(pc)],
+                   'broken': [n for n, pc in self.kid_conns.items()
+                              if getattr(pc.end.conn.ends[1], 'fail_writes', None) is not None],
+                   # reference: every incoming distributed connection that joined and has not left is a current
+                   # child (acceptance is on, the limit of 5 is never reached, none was proposed as parent)
+                   'children': [n for n, pc in self.kid_conns.items() if not pc.closed and not pc.eof],
                    'mark': {n: len(pc.received) for n, pc in self.kid_conns.items()},
                    'asker_mark': len(self.asker.received)}
             if carrier == 'server':
@@ -144,7 +159,7 @@ class Rig(TreeRig):
     # --- oracle -----------------------------------------------------------------------------------------
     def check_request(self, req):
         own = req['user'] == ME
-        want_fwd = [] if own else req['children']
+        want_fwd = [] if own else [n for n in req['children'] if n not in req.get('broken', [])]
         # children: exactly one DistributedSearchRequest with the same user / ticket / query
         for n, pc in self.kid_conns.items():
             new = [m for m in pc.received[req['mark'].get(n, 0):]
@@ -234,6 +249,16 @@ def histories(tier):
             if r[1] != 'server' and not has_parent:
                 continue
             out.append(shape + [r])
+    # faults and duplicate connections while forwarding
+    r_srv = ('request', 'server', 'other', 5, 'both')
+    r_dist = ('request', 'dist', 'other', 6, 'visible')
+    three = [('child-join', 'c1'), ('child-join', 'c2'), ('child-join', 'c3')]
+    for broken in ('c1', 'c2', 'c3'):
+        out.append(three + [('child-writefail', broken), r_srv, r_srv])
+        out.append(three + [('parent',), ('child-writefail', broken), r_dist, r_dist])
+    out.append([('child-join', 'c1'), ('child-join2', 'c1'), ('child-join', 'c2'), ('child-leave', 'c1'), r_srv])
+    out.append([('child-join', 'c1'), ('child-join', 'c2'), ('child-join2', 'c1'), ('child-leave', 'c1#2'), r_srv])
+    out.append([('child-join', 'c1'), ('child-join2', 'c1'), r_srv, ('child-leave', 'c1'), r_srv])
     # membership changes between two requests
     changes = [('child-leave', 'c1'), ('child-join', 'c3'), ('disconnect', 'p1'), ('child-leave', 'c2')]
     base_shapes = [[('child-join', 'c1'), ('child-join', 'c2'), ('parent',)], [('child-join', 'c1'), ('child-join', 'c2')]]
@@ -263,7 +288,10 @@ def run_history(hist) -> dict:
                 if ev[0] in ('level', 'root', 'disconnect') and not rig.enabled(ev):
                     continue
                 rig.apply(ev)
-            unret = rig.world.unretrieved_task_exceptions()
+            # a queued (fire-and-forget) message whose write fails leaves its ConnectionWriteError in the task:
+            # asyncio merely logs it; it is not part of this property
+            unret = [u for u in rig.world.unretrieved_task_exceptions()
+                     if not (u.startswith('queue-message-task') and 'ConnectionWriteError' in u)]
             if unret:
                 rig.add('task-exception', unret[0], 'C14:task-exception:' + unret[0].split(':', 1)[1].strip()[:40])
             obs = tuple((r['carrier'], r['user'], r['ticket'], r['query'], tuple(r['children'])) for r in rig.requests)
